@@ -624,6 +624,10 @@ func (wr *Writer) appendStruct(rv reflect.Value, depth int, si *sinfo) {
 }
 
 func (wr *Writer) appendSlice(rv reflect.Value, depth int, si *sinfo) {
+	if rv.Kind() == reflect.Slice && rv.Type().Elem().Kind() == reflect.Uint8 {
+		wr.appendJSON(rv.Bytes(), depth) // honor the BytesAs option
+		return
+	}
 	end := rv.Len()
 	if end == 0 {
 		wr.buf = append(wr.buf, "[]"...)
